@@ -45,7 +45,9 @@ structure WF (c : Cfg) (a : A) (lives : List Ext) : Prop where
   disc : a.discarded < TWO32
 
 /-- abstract histories of the calls C01 quantifies over; `release i` drops / explicitly deallocates
-    the `i`-th handle still held, `detach i` forgets it (its memory stays reserved) -/
+    the `i`-th handle still held, `detach i` forgets it (its memory stays reserved); `clear` returns the arena
+    to its pristine state (same capacity, minimum segment size in force, `discarded = 0`) and forgets every
+    held and detached handle; `truncate n` changes the capacity only -/
 inductive HOp where
   | allocBytes (n : Nat)
   | allocAligned (tsize talign extra : Nat)
@@ -55,7 +57,15 @@ inductive HOp where
   | setMinSeg (n : Nat)
   | incDiscarded (n : Nat)
   | discardFreelist
+  /-- `Allocator::clear()` (API contract: no handle is used afterwards): every handle is forgotten -/
+  | clear
+  /-- `unsync::Arena::truncate(n)`: the capacity becomes `max n allocated` -/
+  | truncate (n : Nat)
   deriving Repr
+
+/-- fresh arena -/
+def A.fresh (cap dataOffset minSeg : Nat) : A :=
+  { cap := cap, allocated := dataOffset, minSeg := minSeg, discarded := 0, free := [] }
 
 /-- session state of an abstract history -/
 structure HState where
@@ -97,6 +107,10 @@ def HState.step (c : Cfg) (h : HState) : HOp → HState
   | .setMinSeg n => if c.ro then h else { h with a := { h.a with minSeg := n } }
   | .incDiscarded n => { h with a := h.a.incDiscarded c n }
   | .discardFreelist => { h with a := (h.a.discardFreelist c).2 }
+  | .clear =>
+    if c.ro then h
+    else { a := A.fresh h.a.cap c.dataOffset h.a.minSeg, held := [], detached := [] }
+  | .truncate n => if c.ro then h else { h with a := { h.a with cap := max n h.a.allocated } }
 
 def HState.run (c : Cfg) (h : HState) (ops : List HOp) : HState := ops.foldl (HState.step c) h
 
@@ -105,9 +119,5 @@ def HOp.ok : HOp → Prop
   | .allocAligned ts ta _ => okAlignment ta ∧ ts % ta = 0
   | .allocT ts ta => okAlignment ta ∧ ts % ta = 0
   | _ => True
-
-/-- fresh arena -/
-def A.fresh (cap dataOffset minSeg : Nat) : A :=
-  { cap := cap, allocated := dataOffset, minSeg := minSeg, discarded := 0, free := [] }
 
 end Rarena
